@@ -191,9 +191,11 @@ class Continuous(AgentSchedulingComponent):
         loop_core_idx = 0
         loop_gpu_idx  = 0
 
-        # node-local storage and memory still available on this node
+        # node-local storage and memory still available on this node, and the
+        # share of the GPU at `loop_gpu_idx` handed out to slots found so far
         lfs_avail = node['lfs']
         mem_avail = node['mem']
+        gpu_share = 0.0
 
         while len(slots) < n_slots:
 
@@ -261,14 +263,17 @@ class Continuous(AgentSchedulingComponent):
                 for gpu_idx,gpu_occ in enumerate(node['gpus'][loop_gpu_idx:],
                                                               loop_gpu_idx):
 
-                    # skip blocked GPUs
+                    # skip blocked GPUs, and account for the shares handed
+                    # out to the slots found above
                     if  gpu_occ is not None and \
-                        gpus_per_slot <= rpc.BUSY - gpu_occ:
+                        gpus_per_slot <= rpc.BUSY - gpu_occ - gpu_share:
                         slot['gpus'].append(RO(index=gpu_idx,
                                                occupation=gpus_per_slot))
+                        gpu_share += gpus_per_slot
                         break
                     else:
                         loop_gpu_idx = gpu_idx + 1
+                        gpu_share    = 0.0
 
                 if len(slot['gpus']) < 1:
                     self._log.debug_9('not enough gpus on %s (2)', node_name)
